@@ -94,10 +94,10 @@ pub struct DiskCache<K: CacheKey> {
     config: DiskCacheConfig,
     /// In-memory index of cached entries
     index: Arc<RwLock<HashMap<K, DiskCacheEntry>>>,
-    /// Current number of entries (atomic for fast access)
-    entry_count: AtomicUsize,
-    /// Current disk usage in bytes (atomic for fast access)
-    disk_usage: AtomicU64,
+    /// Current number of entries (atomic for fast access, shared with the cleanup task)
+    entry_count: Arc<AtomicUsize>,
+    /// Current disk usage in bytes (atomic for fast access, shared with the cleanup task)
+    disk_usage: Arc<AtomicU64>,
     /// High-performance metrics collector
     metrics: Arc<AtomicCacheMetrics>,
     /// File operation semaphore to limit concurrent I/O
@@ -124,8 +124,8 @@ impl<K: CacheKey + 'static> DiskCache<K> {
         let cache = Self {
             config,
             index: Arc::new(RwLock::new(HashMap::new())),
-            entry_count: AtomicUsize::new(0),
-            disk_usage: AtomicU64::new(0),
+            entry_count: Arc::new(AtomicUsize::new(0)),
+            disk_usage: Arc::new(AtomicU64::new(0)),
             metrics,
             io_semaphore,
             cleanup_handle: None,
@@ -174,8 +174,10 @@ impl<K: CacheKey + 'static> DiskCache<K> {
         let index = Arc::clone(&self.index);
         let metrics = Arc::clone(&self.metrics);
         let config = self.config.clone();
-        let entry_count = Arc::new(AtomicUsize::new(0));
-        let disk_usage = Arc::new(AtomicU64::new(0));
+        // The cache's own counters: private ones would leave size()/stats() counting every
+        // entry the task removes (and wrap below zero themselves).
+        let entry_count = Arc::clone(&self.entry_count);
+        let disk_usage = Arc::clone(&self.disk_usage);
 
         let handle = tokio::spawn(async move {
             let mut interval = interval(cleanup_interval);
